@@ -9,6 +9,7 @@ import Driver.Delta
 import Driver.Engine
 import Driver.Wire
 import Driver.Compress
+import Driver.Hardlink
 
 namespace Driver
 
@@ -22,6 +23,7 @@ def dispatch (toks : List String) : String :=
       else if area == "engine" then Driver.Engine.handle toks
       else if area == "wire" then Driver.Wire.handle toks
       else if area == "compress" || area == "sparse" then Driver.Compress.handle toks
+      else if area == "hl" then Driver.Hardlink.handle toks
       else none
     r.getD "bad-op"
 
